@@ -225,7 +225,7 @@ func char(s string, position int) string {
 	c := ""
 
 	if position < len(s) {
-		c = string(s[position])
+		c = s[position : position+1] // Keep the byte as it is (string(byte) would re-encode bytes >= 0x80 as UTF-8).
 	}
 	return c
 }
